@@ -17,6 +17,11 @@
 (*   end why         "complete": every call returned; "deadlock": the Go runtime found  *)
 (*                   every goroutine blocked with calls outstanding                     *)
 (*   other lines (obs, enter, closegate, closeopen) belong to the M-level trace spec    *)
+(* Nested cases (mode nproto: the outer context holds a resources.NewNested resource    *)
+(* around 2-3 gated inner contexts; cfg also lists the resources of every inner         *)
+(* context, which count for ClosedExactlyOnce like any configured resource):            *)
+(*   ibegin i n / ienter i / isecend i kind   inner context i at its gates              *)
+(*   icommit i res   Commit() of a resource of inner context i was called               *)
 EXTENDS Naturals, Sequences, FiniteSets, TLC, Json
 
 Trace == ndJsonDeserialize("trace.ndjson")
@@ -31,16 +36,18 @@ VARIABLES l,            \* next line
           blocked,      \* a Stop call was seen parked while unreturned
           beginsAfter,  \* section begins since then
           bound,
-          lateCommit, closedOK, outcomeOK, endOK
+          lateCommit,   \* a section committed after a Stop call had returned
+          lateInner,    \* a section of an inner context committed after the (started) outer Run had returned
+          closedOK, outcomeOK, endOK
 ovars == <<l, caseLine, cfg, created, closes, runCalled, runRet, began, stopCalled, stopRet, ending, closeErr,
-           blocked, beginsAfter, bound, lateCommit, closedOK, outcomeOK, endOK>>
+           blocked, beginsAfter, bound, lateCommit, lateInner, closedOK, outcomeOK, endOK>>
 
 ToSet(s) == {s[i] : i \in 1..Len(s)}
 
 OInit == /\ l = 1 /\ caseLine = 0 /\ cfg = {} /\ created = {} /\ closes = <<>> /\ runCalled = {} /\ runRet = {}
          /\ began = {} /\ stopCalled = {} /\ stopRet = {} /\ ending = <<>> /\ closeErr = FALSE
          /\ blocked = FALSE /\ beginsAfter = 0 /\ bound = 0
-         /\ lateCommit = FALSE /\ closedOK = TRUE /\ outcomeOK = TRUE /\ endOK = TRUE
+         /\ lateCommit = FALSE /\ lateInner = FALSE /\ closedOK = TRUE /\ outcomeOK = TRUE /\ endOK = TRUE
 
 Ev(e) == l <= Len(Trace) /\ Trace[l].e = e /\ l' = l + 1
 T == Trace[l]
@@ -53,11 +60,11 @@ OCase == /\ Ev("case") /\ caseLine' = l
          /\ cfg' = ToSet(T.cfg) /\ created' = {} /\ closes' = <<>> /\ runCalled' = {} /\ runRet' = {}
          /\ began' = {} /\ stopCalled' = {} /\ stopRet' = {} /\ ending' = <<>> /\ closeErr' = FALSE
          /\ blocked' = FALSE /\ beginsAfter' = 0 /\ bound' = T.bound
-         /\ lateCommit' = FALSE /\ closedOK' = TRUE /\ outcomeOK' = TRUE /\ endOK' = TRUE
+         /\ lateCommit' = FALSE /\ lateInner' = FALSE /\ closedOK' = TRUE /\ outcomeOK' = TRUE /\ endOK' = TRUE
 
 ORunCall == /\ Ev("runcall") /\ runCalled' = runCalled \cup {T.r}
             /\ UNCHANGED <<caseLine, cfg, created, closes, runRet, began, stopCalled, stopRet, ending, closeErr,
-                           blocked, beginsAfter, bound, lateCommit, closedOK, outcomeOK, endOK>>
+                           blocked, beginsAfter, bound, lateCommit, lateInner, closedOK, outcomeOK, endOK>>
 
 (* what Run may report, given how the run ended (Run's documented outcomes) *)
 OutcomeOK(r, o) ==
@@ -78,57 +85,67 @@ ORunRet == /\ Ev("runret") /\ runRet' = runRet \cup {T.r}
            /\ outcomeOK' = (outcomeOK /\ OutcomeOK(T.r, T))
            /\ closedOK' = (closedOK /\ (T.r \in began => AllClosedOnce))
            /\ UNCHANGED <<caseLine, cfg, created, closes, runCalled, began, stopCalled, stopRet, ending, closeErr,
-                          blocked, beginsAfter, bound, lateCommit, endOK>>
+                          blocked, beginsAfter, bound, lateCommit, lateInner, endOK>>
 
 OStopCall == /\ Ev("stopcall") /\ stopCalled' = stopCalled \cup {T.t}
              /\ UNCHANGED <<caseLine, cfg, created, closes, runCalled, runRet, began, stopRet, ending, closeErr,
-                            blocked, beginsAfter, bound, lateCommit, closedOK, outcomeOK, endOK>>
+                            blocked, beginsAfter, bound, lateCommit, lateInner, closedOK, outcomeOK, endOK>>
 OStopRet == /\ Ev("stopret") /\ stopRet' = stopRet \cup {T.t}
             /\ blocked' = (blocked /\ stopCalled # stopRet')      \* nobody is waiting any more
             /\ beginsAfter' = IF blocked' THEN beginsAfter ELSE 0
             /\ UNCHANGED <<caseLine, cfg, created, closes, runCalled, runRet, began, stopCalled, ending, closeErr,
-                           bound, lateCommit, closedOK, outcomeOK, endOK>>
+                           bound, lateCommit, lateInner, closedOK, outcomeOK, endOK>>
 OStopBlocked == /\ Ev("stopblocked")
                 /\ blocked' = (blocked \/ (T.t \notin stopRet /\ runCalled # runRet))
                 /\ UNCHANGED <<caseLine, cfg, created, closes, runCalled, runRet, began, stopCalled, stopRet, ending,
-                               closeErr, beginsAfter, bound, lateCommit, closedOK, outcomeOK, endOK>>
+                               closeErr, beginsAfter, bound, lateCommit, lateInner, closedOK, outcomeOK, endOK>>
 
 OBegin == /\ Ev("begin") /\ began' = began \cup {T.r}
           /\ beginsAfter' = IF blocked THEN beginsAfter + 1 ELSE beginsAfter
           /\ UNCHANGED <<caseLine, cfg, created, closes, runCalled, runRet, stopCalled, stopRet, ending, closeErr,
-                         blocked, bound, lateCommit, closedOK, outcomeOK, endOK>>
+                         blocked, bound, lateCommit, lateInner, closedOK, outcomeOK, endOK>>
 OSecEnd == /\ Ev("secend")
            /\ ending' = [x \in DOMAIN ending \cup {T.r} |-> IF x = T.r THEN T.kind ELSE ending[x]]
            /\ UNCHANGED <<caseLine, cfg, created, closes, runCalled, runRet, began, stopCalled, stopRet, closeErr,
-                          blocked, beginsAfter, bound, lateCommit, closedOK, outcomeOK, endOK>>
+                          blocked, beginsAfter, bound, lateCommit, lateInner, closedOK, outcomeOK, endOK>>
 OCommit == /\ Ev("commit") /\ lateCommit' = (lateCommit \/ stopRet # {})
            /\ UNCHANGED <<caseLine, cfg, created, closes, runCalled, runRet, began, stopCalled, stopRet, ending,
-                          closeErr, blocked, beginsAfter, bound, closedOK, outcomeOK, endOK>>
+                          closeErr, blocked, beginsAfter, bound, lateInner, closedOK, outcomeOK, endOK>>
+(* a commit inside the nested system: it is late if a Stop call on the (started) outer context has returned, *)
+(* or if the started outer Run has returned -- both promise that the clean-up, which stops and awaits every  *)
+(* inner context, is complete                                                                                *)
+OICommit == /\ Ev("icommit")
+            /\ lateCommit' = (lateCommit \/ (stopRet # {} /\ began # {}))
+            /\ lateInner' = (lateInner \/ (began \cap runRet # {}))
+            /\ UNCHANGED <<caseLine, cfg, created, closes, runCalled, runRet, began, stopCalled, stopRet, ending,
+                           closeErr, blocked, beginsAfter, bound, closedOK, outcomeOK, endOK>>
 OCreate == /\ Ev("create") /\ created' = created \cup {T.res}
            /\ UNCHANGED <<caseLine, cfg, closes, runCalled, runRet, began, stopCalled, stopRet, ending, closeErr,
-                          blocked, beginsAfter, bound, lateCommit, closedOK, outcomeOK, endOK>>
+                          blocked, beginsAfter, bound, lateCommit, lateInner, closedOK, outcomeOK, endOK>>
 OClose == /\ Ev("close")
           /\ closes' = [x \in DOMAIN closes \cup {T.res} |-> IF x = T.res THEN Count(x) + 1 ELSE closes[x]]
           /\ closeErr' = (closeErr \/ T.err)
           /\ UNCHANGED <<caseLine, cfg, created, runCalled, runRet, began, stopCalled, stopRet, ending,
-                         blocked, beginsAfter, bound, lateCommit, closedOK, outcomeOK, endOK>>
+                         blocked, beginsAfter, bound, lateCommit, lateInner, closedOK, outcomeOK, endOK>>
 OEnd == /\ Ev("end")
         /\ endOK' = (endOK /\ T.why = "complete" /\ stopCalled = stopRet /\ runCalled = runRet)
         /\ UNCHANGED <<caseLine, cfg, created, closes, runCalled, runRet, began, stopCalled, stopRet, ending, closeErr,
-                       blocked, beginsAfter, bound, lateCommit, closedOK, outcomeOK>>
-OSkip == /\ l <= Len(Trace) /\ Trace[l].e \in {"obs", "enter", "closegate", "closeopen", "note"}
+                       blocked, beginsAfter, bound, lateCommit, lateInner, closedOK, outcomeOK>>
+OSkip == /\ l <= Len(Trace) /\ Trace[l].e \in {"obs", "enter", "closegate", "closeopen", "note", "ibegin", "ienter", "isecend"}
          /\ l' = l + 1
          /\ UNCHANGED <<caseLine, cfg, created, closes, runCalled, runRet, began, stopCalled, stopRet, ending, closeErr,
-                        blocked, beginsAfter, bound, lateCommit, closedOK, outcomeOK, endOK>>
+                        blocked, beginsAfter, bound, lateCommit, lateInner, closedOK, outcomeOK, endOK>>
 
 ONext == OCase \/ ORunCall \/ ORunRet \/ OStopCall \/ OStopRet \/ OStopBlocked \/ OBegin \/ OSecEnd
-         \/ OCommit \/ OCreate \/ OClose \/ OEnd \/ OSkip
+         \/ OCommit \/ OICommit \/ OCreate \/ OClose \/ OEnd \/ OSkip
 
 (* ------------------------------------------------------------------ the property *)
 (* An archetype context runs at most once. *)
 RunsAtMostOnce == Cardinality(began) <= 1
 (* After Stop returns no further critical section commits. *)
 NoCommitAfterStopReturned == ~lateCommit
+(* No section of an inner context of a nested resource commits after the started outer Run returned. *)
+NoInnerCommitAfterRunReturned == ~lateInner
 (* When a started run ends every configured resource and every realised map element has *)
 (* been closed exactly once; nothing is ever closed twice.                              *)
 ClosedExactlyOnce == closedOK /\ \A x \in DOMAIN closes : closes[x] <= 1
@@ -143,12 +160,13 @@ StopsAtLabelBoundary == beginsAfter <= bound
 (* The judge: evaluated by TLC on every state of the folded trace. It never stops the fold (so one *)
 (* pass judges every recorded case) and reports <<"VIOLATED", case header line, line, names>>.     *)
 Violated == SelectSeq(<<"RunsAtMostOnce", "NoCommitAfterStopReturned", "ClosedExactlyOnce",
-                        "DistinctOutcomes", "EveryStopReturns", "StopsAtLabelBoundary">>,
+                        "DistinctOutcomes", "EveryStopReturns", "NoInnerCommitAfterRunReturned", "StopsAtLabelBoundary">>,
                       LAMBDA n : ~(CASE n = "RunsAtMostOnce" -> RunsAtMostOnce
                                      [] n = "NoCommitAfterStopReturned" -> NoCommitAfterStopReturned
                                      [] n = "ClosedExactlyOnce" -> ClosedExactlyOnce
                                      [] n = "DistinctOutcomes" -> DistinctOutcomes
                                      [] n = "EveryStopReturns" -> EveryStopReturns
+                                     [] n = "NoInnerCommitAfterRunReturned" -> NoInnerCommitAfterRunReturned
                                      [] OTHER -> StopsAtLabelBoundary))
 Judge == IF Violated # <<>> THEN PrintT(<<"VIOLATED", caseLine, l - 1, Violated>>) ELSE TRUE
 =============================================================================
